@@ -60,27 +60,62 @@ Lemma OldZ_pwf : forall n, OldZ n -> pwf (perase n).
 Proof.
   induction n as [k f v|k f x ch IH] using node_ind'; intro H.
   - constructor.
-  - inversion H as [|f0 x0 ch0 HO HF Hnd]; subst. rewrite perase_comp. constructor.
+  - inversion H as [|f0 x0 ch0 HO HF Hnd|f0 x0 ch0 HO HF HK]; subst; [|rewrite perase_list; constructor]. rewrite perase_dict. constructor.
     + unfold pch. rewrite map_map. exact Hnd.
     + unfold pch. clear H Hnd. induction IH as [|kc r Hkc Hr IHr]; cbn [map]; [constructor|]. inversion HF; subst. constructor; cbn [snd]; auto.
+Qed.
+
+(* ---------- the side condition along histories ---------- *)
+Lemma hcompat_app : forall l1 l2 d0, hcompat d0 (l1 ++ l2) <-> hcompat d0 l1 /\ hcompat (fold_left upd_p l1 d0) l2.
+Proof.
+  induction l1 as [|d r IH]; intros l2 d0; cbn [app hcompat fold_left]; [tauto|]. rewrite IH. tauto.
+Qed.
+
+Lemma lcompat_refl : forall d, pwf d -> lcompat d d.
+Proof.
+  induction d as [p [v|l]|p kv IH] using pp_ind'; intro Hw; [exact I|exact I|].
+  inversion Hw as [|? ? Hnd HF]; subst. apply lcompat_DD. rewrite Forall_forall in IH, HF |- *. intros [k v] Hin. cbn [fst snd].
+  rewrite (In_aget k v kv Hnd Hin). apply (IH (k, v) Hin), (HF (k, v) Hin).
+Qed.
+
+Lemma lcompat_upd_same : forall b a, pwf b -> lcompat a b -> lcompat (upd_p a b) b.
+Proof.
+  induction b as [pn [vn|ln]|pn kv IH] using pp_ind'; intros a Hw Hc.
+  - exact I.
+  - rewrite upd_p_other by (left; exact I). destruct (ppri a >? ppri (PPS pn (AL ln))); [exact Hc|exact I].
+  - destruct a as [po [vo|lo]|po okv].
+    + rewrite upd_p_other by (right; exact I). destruct (ppri (PPS po (AS vo)) >? ppri (PPD pn kv)); [exact Hc|apply lcompat_refl; exact Hw].
+    + cbn in Hc. contradiction.
+    + rewrite upd_p_DD. apply lcompat_DD. apply lcompat_DD in Hc. inversion Hw as [|? ? Hnd HF]; subst.
+      rewrite Forall_forall in IH, HF, Hc |- *. intros [k v] Hin. cbn [fst snd].
+      rewrite (updp_go_get kv okv k Hnd), (In_aget k v kv Hnd Hin).
+      specialize (Hc (k, v) Hin). cbn [fst snd] in Hc.
+      destruct (aget k okv) as [ov|]; cbn [wr].
+      * apply (IH (k, v) Hin); [apply (HF (k, v) Hin)|exact Hc].
+      * apply lcompat_refl, (HF (k, v) Hin).
 Qed.
 
 (* repeating the last document of a history of prioritised mapping documents changes neither a value nor a priority *)
 Theorem repeat_last_prio e s0 sts last :
   Forall NewZ (s0 :: sts ++ [last]) -> forallb is_dictk (s0 :: sts ++ [last]) = true ->
+  hcompat (perase s0) (map perase (sts ++ [last])) ->
   exists n m, flatten e (s0 :: sts ++ [last]) = Ok n /\ flatten e (s0 :: (sts ++ [last]) ++ [last]) = Ok m /\ perase m = perase n.
 Proof.
-  intros HF HD.
+  intros HF HD Hh.
   assert (Hw : pwf (perase last)).
   { apply OldZ_pwf, NewZ_oldz. inversion HF as [|? ? _ HR]; subst. apply Forall_app in HR. destruct HR as [_ HL]. inversion HL; subst. assumption. }
-  destruct (flatten_prio e s0 (sts ++ [last]) HF HD) as (n & En & Pn).
+  destruct (flatten_prio e s0 (sts ++ [last]) HF HD Hh) as (n & En & Pn).
   assert (HF2 : Forall NewZ (s0 :: (sts ++ [last]) ++ [last])).
   { inversion HF as [|? ? H0 HR]; subst. constructor; [exact H0|]. apply Forall_app. split; [exact HR|].
     apply Forall_app in HR. destruct HR as [_ HL]. exact HL. }
   assert (HD2 : forallb is_dictk (s0 :: (sts ++ [last]) ++ [last]) = true).
   { cbn [forallb] in *. apply andb_true_iff in HD. destruct HD as [A B]. rewrite A. cbn [andb].
     rewrite forallb_app, B. rewrite forallb_app in B. apply andb_true_iff in B. destruct B as [_ C]. exact C. }
-  destruct (flatten_prio e s0 ((sts ++ [last]) ++ [last]) HF2 HD2) as (m & Em & Pm).
+  assert (Hh2 : hcompat (perase s0) (map perase ((sts ++ [last]) ++ [last]))).
+  { rewrite map_app. apply hcompat_app. split; [exact Hh|]. cbn [map hcompat]. split; [|exact I].
+    rewrite map_app. cbn [map]. rewrite fold_left_snoc. apply lcompat_upd_same; [exact Hw|].
+    rewrite map_app in Hh. apply hcompat_app in Hh. destruct Hh as [_ Hl]. cbn [map hcompat] in Hl. exact (proj1 Hl). }
+  destruct (flatten_prio e s0 ((sts ++ [last]) ++ [last]) HF2 HD2 Hh2) as (m & Em & Pm).
   exists n, m. split; [exact En|]. split; [exact Em|].
   rewrite Pm, Pn, !map_app. cbn [map]. rewrite !fold_left_snoc. apply upd_p_idem. exact Hw.
 Qed.
@@ -122,17 +157,18 @@ Qed.
 (* an empty mapping document (any flags of the class) inserted after the first document changes no value and no priority below the root *)
 Theorem empty_doc_neutral_flatten e s0 l1 l2 fE xE :
   Forall NewZ (s0 :: l1 ++ Comp CDict fE xE [] :: l2) -> forallb is_dictk (s0 :: l1 ++ l2) = true ->
+  hcompat (perase s0) (map perase (l1 ++ Comp CDict fE xE [] :: l2)) -> hcompat (perase s0) (map perase (l1 ++ l2)) ->
   exists n m, flatten e (s0 :: l1 ++ Comp CDict fE xE [] :: l2) = Ok n /\ flatten e (s0 :: l1 ++ l2) = Ok m /\
               kids (perase n) = kids (perase m).
 Proof.
-  intros HF HD.
+  intros HF HD Hh Hh'.
   assert (HF' : Forall NewZ (s0 :: l1 ++ l2)).
   { inversion HF as [|? ? H0 HR]; subst. constructor; [exact H0|]. apply Forall_app in HR. destruct HR as [A B]. inversion B; subst. apply Forall_app. auto. }
   assert (HD' : forallb is_dictk (s0 :: l1 ++ Comp CDict fE xE [] :: l2) = true).
   { cbn [forallb] in *. apply andb_true_iff in HD. destruct HD as [A B]. rewrite A. cbn [andb]. rewrite forallb_app in *. apply andb_true_iff in B. destruct B as [B1 B2].
     rewrite B1. cbn [forallb andb is_dictk is_listk negb]. exact B2. }
-  destruct (flatten_prio e s0 _ HF HD') as (n & En & Pn). destruct (flatten_prio e s0 _ HF' HD) as (m & Em & Pm).
-  exists n, m. split; [exact En|]. split; [exact Em|]. rewrite Pn, Pm, !map_app. cbn [map]. rewrite perase_comp. cbn [pch map].
+  destruct (flatten_prio e s0 _ HF HD' Hh) as (n & En & Pn). destruct (flatten_prio e s0 _ HF' HD Hh') as (m & Em & Pm).
+  exists n, m. split; [exact En|]. split; [exact Em|]. rewrite Pn, Pm, !map_app. cbn [map]. rewrite perase_dict. cbn [pch map].
   inversion HF' as [|? ? H0 HR]; subst. cbn [forallb] in HD. apply andb_true_iff in HD. destruct HD as [A B].
   apply Forall_app in HR. destruct HR as [R1 R2]. rewrite forallb_app in B. apply andb_true_iff in B. destruct B as [B1 B2].
   apply empty_doc_neutral_prio.
@@ -144,10 +180,11 @@ Qed.
 (* the refinement does not look at safety marks, metadata or implicit flags: stages with the same priority image build the same image *)
 Theorem same_image_same_result e s0 sts s0' sts' :
   Forall NewZ (s0 :: sts) -> Forall NewZ (s0' :: sts') -> forallb is_dictk (s0 :: sts) = true -> forallb is_dictk (s0' :: sts') = true ->
-  map perase (s0 :: sts) = map perase (s0' :: sts') ->
+  map perase (s0 :: sts) = map perase (s0' :: sts') -> hcompat (perase s0) (map perase sts) ->
   exists n m, flatten e (s0 :: sts) = Ok n /\ flatten e (s0' :: sts') = Ok m /\ perase n = perase m.
 Proof.
-  intros HF HF' HD HD' E.
-  destruct (flatten_prio e s0 sts HF HD) as (n & En & Pn). destruct (flatten_prio e s0' sts' HF' HD') as (m & Em & Pm).
+  intros HF HF' HD HD' E Hh.
+  assert (Hh' : hcompat (perase s0') (map perase sts')) by (cbn [map] in E; injection E as E0 Er; now rewrite <- E0, <- Er).
+  destruct (flatten_prio e s0 sts HF HD Hh) as (n & En & Pn). destruct (flatten_prio e s0' sts' HF' HD' Hh') as (m & Em & Pm).
   exists n, m. split; [exact En|]. split; [exact Em|]. cbn [map] in E. injection E as E0 Er. now rewrite Pn, Pm, E0, Er.
 Qed.
